@@ -12,12 +12,33 @@ for p in check.unit_files():
     m = check.unit_meta(p)
     for c in m['serves']:
         units.setdefault(c, []).append(m['unit'])
+import kani_lane
+harness_props = set()
+hby = {}
+for h in kani_lane.harnesses_for(None):
+    for pp in h['props']:
+        harness_props.add(pp)
+        hby.setdefault(pp, []).append(h)
 fix_commits = []
 try:
     out = subprocess.run(['git', '-C', '/repo', 'log', '--format=%h %s'], capture_output=True, text=True).stdout
     fix_commits = [l.split()[0] for l in out.split('\n') if l[8:].startswith('fix:') or ' fix:' in l[:14]]
 except Exception:
     pass
+def harness_note(c):
+    deps = [c] + props.PROPS[c].get('depends', [])
+    hs = []
+    for d in deps:
+        for h in hby.get(d, []):
+            if h['full'] not in [x['full'] for x in hs]:
+                hs.append(h)
+    if not hs:
+        return ''
+    n = {k: sum(1 for h in hs if h['kind'] == k) for k in ('complete', 'bounded', 'enum')}
+    return ('; plus harnesses on the real crate: %d complete Kani/CBMC proofs (loop-free, full domain), %d bounded Kani/CBMC harnesses, %d exhaustive '
+            'native enumerations (bounded stand-ins, labelled bounded in the evidence, never counted as proved)' % (n['complete'], n['bounded'], n['enum']))
+
+
 man = {
     'version': 1,
     'setup_cmd': 'true',
@@ -31,6 +52,8 @@ man = {
     'engines': [
         {'name': 'verus-units', 'path': 'tools/check.py', 'serves_properties': sorted(units),
          'kind_free_text': 'contract-based deductive verification: functions extracted mechanically from /repo each run (tools/vengine.py), contracts from contracts/*.vrs spliced add-only, discharged by Verus/z3 function by function; vacuity probes; obligation lock'},
+        {'name': 'harness-lane', 'path': 'tools/kani_lane.py', 'serves_properties': sorted(harness_props),
+         'kind_free_text': 'harness modules kani/*.rs appended to a scratch copy of the crate (never to /repo): kind=complete are loop-free full-domain Kani/CBMC proofs; kind=bounded are Kani/CBMC with a stated bound; kind=enum are the same harness language run natively with every choice enumerated (bounded stand-in for String/Path/iterator code that neither Verus nor CBMC can take); counterexamples are replayed on the real code compiled by plain rustc'},
     ],
     'checks': [],
     'not_applicable': [],
@@ -48,7 +71,7 @@ for c in allp:
             'engine': 'verus-units',
             'level_claimed': {'category': sp.get('level', 'proof'), 'text': sp['explanation'], 'design_ref': 'DESIGN.md section 5/' + c},
             'level_note': '; '.join(sp.get('assumptions', [])) or 'see evidence trusted_base',
-            'technique': sp.get('technique', 'contract-based deductive verification (Verus) of the real functions, extracted mechanically each run'),
+            'technique': sp.get('technique', 'contract-based deductive verification (Verus) of the real functions, extracted mechanically each run') + harness_note(c),
         })
     else:
         man['not_applicable'].append({'property_id': c, 'reason': (sp or {}).get('na_reason', 'no check registered yet for this property in this build of the framework (see DESIGN.md section 10 for status)')})
